@@ -6,6 +6,7 @@ import (
 	"strconv"
 	"strings"
 	"testing"
+	"time"
 
 	"verif/harness/internal/pand"
 	"verif/harness/internal/target"
@@ -173,5 +174,5 @@ func checkGRPC(c GRPCCase, o *vf.Obs) error {
 func TestGRPCGuns(t *testing.T) {
 	pand.Init()
 	r := vf.Start(t, "C19")
-	vf.Check(r, genGRPC, checkGRPC)
+	vf.Check(r, genGRPC, vf.LoadTolerant(25*time.Millisecond, checkGRPC))
 }
